@@ -95,7 +95,7 @@ RULE = ('(1) envelopes: every subset/order of the optional headers (PitToken of 
         'correspondence only); fragmented envelopes (also increasing-order ones carrying PitToken/Nack/later fields) around '
         'whole packets that would complete a pending Interest / reach a handler (must have no effect); '
         'each packet is delivered bare to one application and wrapped to an identical one (0..3 '
-        'pending Interests, 0..2 handlers) and the observable outcomes are compared. Second hardening round: every well-formed envelope of (1) is also decoded from a bytearray / read-only / writable memoryview, as a bare value with with_tl=False, through the legacy helper parse_lp_packet and through parse_network_nack (same token / reason / enclosed packet, same rejection of fragments); enclosed packets, replies and Nacked Interests whose size takes the Length of the envelope across 253 and 65536; tokens and replies handed over as bytearray / memoryview; 3..5 Interests pending on one name (with and without implicit digest, CanBePrefix and exact) when the Nack arrives; envelopes delivered in a bytearray / memoryview. Byte-level round: (1d) envelopes with 1..3 unknown headers AFTER the Fragment (plain and Nack; judged), two or three Nack headers with different reasons or undecodable later ones, one header with an illegal value (NonNegativeInteger / NackReason / CachePolicyType of 0/3/5/6/7/9/16 bytes, critical unknown sub-element in Nack / CachePolicy) among legal ones (both compared with the model), known headers / PitToken / Nack / fragmentation fields / a second Fragment written AFTER the Fragment (compared with the model: all skipped); (4) the same inside the front-end stream, plus a Fragment that is itself an envelope and Fragments whose type number is unreadable; in half of the front-end cases with handlers every handler replies at once with a fixed wire and the bytes written to the face are compared with the model (Ndn.Lp.reply over the token receiveBytes hands out) and judged (identical token + unmodified reply, bare without token / on the legacy front-end); every front-end case is also answered by the byte-level pipeline receiveBytes from the envelope bytes alone (effects, bytes sent, who is still pending after each packet). non-trivial = the case has a header, a '
+        'pending Interests, 0..2 handlers) and the observable outcomes are compared. Second hardening round: every well-formed envelope of (1) is also decoded from a bytearray / read-only / writable memoryview, as a bare value with with_tl=False, through the legacy helper parse_lp_packet and through parse_network_nack (same token / reason / enclosed packet, same rejection of fragments); enclosed packets, replies and Nacked Interests whose size takes the Length of the envelope across 253 and 65536; tokens and replies handed over as bytearray / memoryview; 3..5 Interests pending on one name (with and without implicit digest, CanBePrefix and exact) when the Nack arrives; envelopes delivered in a bytearray / memoryview. Byte-level round: (1d) envelopes with 1..3 unknown headers AFTER the Fragment (plain and Nack; judged), two or three Nack headers with different reasons or undecodable later ones, one header with an illegal value (NonNegativeInteger / NackReason / CachePolicyType of 0/3/5/6/7/9/16 bytes, critical unknown sub-element in Nack / CachePolicy) among legal ones (both compared with the model), known headers / PitToken / Nack / fragmentation fields / a second Fragment written AFTER the Fragment (compared with the model: all skipped); (4) the same inside the front-end stream, plus a Fragment that is itself an envelope and Fragments whose type number is unreadable; in half of the front-end cases with handlers every handler replies at once with a fixed wire and the bytes written to the face are compared with the model (Ndn.Lp.reply over the token receiveBytes hands out) and judged (identical token + unmodified reply, bare without token / on the legacy front-end); every front-end case is also answered by the byte-level pipeline receiveBytes from the envelope bytes alone (effects, bytes sent, who is still pending after each packet). (5) SIZE of the network packet through the RECEIVING side of the real transports (oracle only): Data completing a pending Interest, Interests (signed / with parameters / long-named, with and without PIT token, handlers replying with Data of 40..65536 bytes) and Nacks echoing an Interest the application itself sent with that size; each packet bare to one application and in an envelope (none / token only / any headers, also behind the Fragment) to an identical one, both through a real TcpFace / UnixFace whose StreamFace.run reader loop is fed from an in-memory StreamReader in network segments (single bytes, 1460, 4096, ... with and without the loop running in between, several frames on one stream), a real UdpFace (datagram_received of the opened endpoint) or face.callback directly, on both front-ends; sizes: at every limit of 1024, 1500, 2048, 4096, 8192, 8800 (MAX_NDN_PACKET_SIZE of NFD, weighted), 9000, 16384, 32768, 65507, 65535, 65536 the bare packet exactly at / up to the limit with its envelope beyond it (every position of the window), around the limit, and anywhere from 300 to 70000 bytes. non-trivial = the case has a header, a '
         'token or a pending Interest; distinct = distinct cases')
 
 LP = 0x64
@@ -579,6 +579,20 @@ def cases(rng, tier):
         if rng.random() < 0.2:
             case['rx'] = rng.choice(FORMS[1:])          # the face hands the packets over in a bytearray / memoryview
         yield case
+    # (5) SIZE of the network packet, through the RECEIVING side of the real transports -----------------------------
+    # (StreamFace.run frame reader fed in segments, UdpFace datagram_received, face.callback directly); oracle only
+    kinds = ['data', 'int', 'nack']
+    vias = ['stream', 'udp', 'direct', 'unix']
+    k = rng.randrange(12)
+    for B in XBOUNDS:                  # at every size limit: the largest packet within it, bare and in an envelope
+        for t in (kinds if not quick else [kinds[k % 3]]):
+            yield gen_xport(rng, B=B, via=vias[k % 3] if B != 8800 else 'stream', t=t, exact=True)
+            k += 1
+    for t in kinds:                    # 8800 = the practical maximum packet size of NDN links (NFD's MAX_NDN_PACKET_SIZE)
+        for via in vias[:3]:
+            yield gen_xport(rng, B=8800, via=via, t=t, exact=quick and via != 'stream')
+    for _ in range(30 if quick else 1300):
+        yield gen_xport(rng)
 
 
 FORMS = ['bytes', 'ba', 'mv', 'rwmv']
@@ -622,6 +636,307 @@ def interest_for(p):
     return K.build_interest(name, nonce=77, can_be_prefix=p['cbp'])
 
 
+# sizes at which a transport, a buffer or a length field may have a limit: bare packets up to the limit, the envelope beyond
+XBOUNDS = [1024, 1500, 2048, 4096, 8192, 8800, 9000, 16384, 32768, 65507, 65535, 65536]
+
+
+def gen_xport(rng, B=None, via=None, t=None, exact=False):
+    """one case of stream (5): 1..3 network packets of chosen total sizes (Data completing a pending Interest, Interest
+    reaching a handler - with or without PIT token -, Nack of a pending Interest of that size), each delivered bare to one
+    application and in an envelope to an identical one, THROUGH the receiving side of transport `via`.  Sizes: the bare
+    packet is within a limit B and its envelope beyond it (every position of the window), near B, or anywhere between a
+    few hundred bytes and 70000."""
+    fe = rng.choice(['v2', 'v2', 'v1'])
+    via = via or rng.choice(['stream', 'stream', 'stream', 'unix', 'udp', 'direct'])
+    pkts = []
+    for i in range(1 if exact else rng.choice([1, 1, 2, 3])):
+        ti = t or rng.choice(['data', 'int', 'int', 'nack'])
+        Bi = B if (B is not None and i == 0) else rng.choice(XBOUNDS + [8800, 8800, 8800, 65536])
+        reason = None
+        if ti == 'nack':
+            reason = rng.choice(REASONS)
+            if rng.random() < 0.5:
+                hs = [[0x320, nack_value(rng, reason, extra=False)]]
+            else:
+                hs, _ = gen_ascending(rng, nack=nack_value(rng, reason))
+        else:
+            r = rng.random()
+            if r < 0.25:
+                hs = []                                  # the smallest envelope: LpPacket{Fragment}
+            elif r < 0.5:
+                hs, _ = gen_ascending(rng, token='yes', subset=[0x62])
+            elif r < 0.8:
+                hs, _ = gen_ascending(rng)
+            else:
+                hs, _ = gen_headers(rng)
+        tail = gen_tail(rng) if rng.random() < 0.12 else []
+        cap = 65507 if via == 'udp' else 1 << 30         # a UDP datagram cannot be larger
+        Bi = min(Bi, cap)
+        ov = len(wrap(hs, bytes(Bi), tail)) - Bi
+        r = rng.random()
+        if exact:
+            size = Bi
+        elif r < 0.5:
+            size = Bi - rng.randint(0, ov - 1)           # bare within the limit, envelope beyond it
+        elif r < 0.75:
+            size = Bi - rng.randint(-8, ov + 8)
+        else:
+            size = rng.choice([rng.randint(300, 9000), rng.randint(300, 9000), rng.randint(9000, 70000)])
+        if via == 'udp':
+            size = min(size, cap - ov)
+        pk = {'id': i, 't': ti, 'size': size, 'big': rng.choice(['body', 'body', 'name']), 'seed': rng.randrange(1 << 30),
+              'hdrs': hs_json(hs)}
+        if tail:
+            pk['tail'] = hs_json(tail)
+        if ti == 'nack':
+            pk['reason'] = reason
+        if ti == 'int':
+            pk['signed'] = rng.random() < 0.5
+        if ti != 'int':
+            pk['cbp'] = rng.random() < 0.5
+        pkts.append(pk)
+    case = {'k': 'xport', 'fe': fe, 'via': via, 'pkts': pkts}
+    if via in ('stream', 'unix'):
+        case['head'] = rng.choice([[], [], [], [1], [1, 1, 1], [2, 1, 5], [rng.randint(1, 12)], [rng.randint(1, 9000)]])
+        case['mss'] = rng.choice([0, 0, 0, 1460, 4096, 8192, 65536, rng.randint(512, 9000)])
+        case['settle'] = rng.random() < 0.5
+    if any(p['t'] == 'int' for p in pkts) and rng.random() < 0.7:
+        # every handler replies at once with a Data packet of this size (judged: identical token + unmodified reply / bare)
+        case['reply'] = rng.choice([40, 300, rng.randint(40, 9000), rng.choice(XBOUNDS) - rng.randint(0, 20)])
+    return case
+
+
+def _rb(seed, n):
+    import random
+    return random.Random(seed).randbytes(n) if n > 0 else b''
+
+
+def _fit_n(build, size):
+    """(build(n), n) for the filler length n that makes the wire `size` bytes long (the nearest not above it when no n does)"""
+    n = max(0, size - len(build(0)))
+    best = None
+    for _ in range(6):
+        w = build(n)
+        if len(w) == size:
+            return w, n
+        if len(w) < size and (best is None or len(w) > len(best[0])):
+            best = (w, n)
+        n = max(0, n + size - len(w))
+    return best if best is not None else (build(0), 0)
+
+
+def _fit(build, size):
+    return _fit_n(build, size)[0]
+
+
+def x_names(pk):
+    """(prefix the application registers / expresses, kind letter)"""
+    import pktcommon as K
+    return K.uri_to_comps('/x/%s%d' % ({'data': 'd', 'int': 'h', 'nack': 'n'}[pk['t']], pk['id']))
+
+
+def x_packet(pk):
+    """the network packet of `pk` (Data / Interest), written with pktcommon's writers, pk['size'] bytes long; the bulk is
+    the Content / ApplicationParameters ('body') or one long name component ('name')"""
+    return x_packet_name(pk)[0]
+
+
+def x_packet_name(pk):
+    """(the Data packet of `pk`, the components of its name)"""
+    import pktcommon as K
+    pre, seed = x_names(pk), pk['seed']
+    if pk['t'] == 'data':
+        if pk['big'] == 'name':
+            w, n = _fit_n(lambda n: K.build_data(pre + [K.gen_comp(_rb(seed, n), 8)], {'content_type': 0, 'freshness_period': 10},
+                                                 b'c', {'type': 0}), pk['size'])
+            return w, pre + [K.gen_comp(_rb(seed, n), 8)]
+        return _fit(lambda n: K.build_data(pre + [K.gen_comp(b'v', 8)], {'content_type': 0, 'freshness_period': 10},
+                                           _rb(seed, n), {'type': 0}), pk['size']), pre + [K.gen_comp(b'v', 8)]
+    sig = {'type': 0} if pk.get('signed') else None
+    if pk['big'] == 'name':
+        return _fit(lambda n: K.build_interest(pre + [K.gen_comp(_rb(seed, n), 8)], nonce=seed & 0xffffff, lifetime=4000,
+                                               app=b'' if sig else None, sig=sig), pk['size']), None
+    return _fit(lambda n: K.build_interest(pre + [K.gen_comp(b'q', 8)], nonce=seed & 0xffffff, lifetime=4000,
+                                           app=_rb(seed, n), sig=sig), pk['size']), None
+
+
+def x_reply(case):
+    import pktcommon as K
+    return _fit(lambda n: K.build_data(K.uri_to_comps('/x/r'), {'content_type': 0}, _rb(7, n), {'type': 0}), case['reply'])
+
+
+def _dg(b):
+    b = bytes(b)
+    return '%d:%s' % (len(b), hashlib.sha256(b).hexdigest()[:20])
+
+
+def _sent_obs(b):
+    """compact observation of something written to the transport: its digest and, when it is a well-formed envelope, the
+    (type, value) list of the envelope (values over 64 bytes as digests)"""
+    els = strict_envelope(b) if b[:1] == bytes([LP]) else None
+    return {'d': _dg(b), 'env': None if els is None else [[t, v.hex() if len(v) <= 64 else _dg(v)] for t, v in els]}
+
+
+def _xport_run(case, wrapped):
+    from ndn import encoding as enc, types
+    from apphelp import TransportRig
+    fe, via = case['fe'], case['via']
+    with TransportRig(fe, via) as rig:
+        app, loop = rig.app, rig.loop
+        outcomes, invoked = {}, []
+        reply = x_reply(case) if case.get('reply') is not None else None
+
+        async def v2_validator(name, sig, ctx):
+            return types.ValidResult.PASS
+
+        async def v1_validator(name, sig):
+            return True
+
+        def express(i, name, cbp, app_param=None):
+            async def go():
+                try:
+                    if fe == 'v2':
+                        kw = {}
+                        if app_param is not None:
+                            from ndn.security import DigestSha256Signer
+                            kw = {'app_param': app_param, 'signer': DigestSha256Signer(for_interest=True)}
+                        r = await app.express(name, v2_validator, can_be_prefix=cbp, lifetime=600000, nonce=i + 1, **kw)
+                    else:
+                        kw = {} if app_param is None else {'app_param': app_param}
+                        r = await app.express_interest(name, validator=v1_validator, can_be_prefix=cbp, lifetime=600000,
+                                                       nonce=i + 1, **kw)
+                    outcomes[i] = ['data', _dg(r[1] if fe == 'v2' else r[2]) if (r[1] if fe == 'v2' else r[2]) is not None else None]
+                except types.InterestNack as e:
+                    outcomes[i] = ['nack', e.reason]
+                except BaseException as e:     # noqa
+                    outcomes[i] = ['exc', type(e).__name__]
+            loop.run_now(go())
+            return b''.join(rig.take_sent())
+
+        # the application's state: one pending Interest per Data / Nack packet, one handler per Interest packet
+        nacked = {}
+        for pk in case['pkts']:
+            i, pre = pk['id'], [bytes(c) for c in x_names(pk)]
+            if pk['t'] == 'data':
+                express(i, pre if pk.get('cbp') else [bytes(c) for c in x_packet_name(pk)[1]], bool(pk.get('cbp')))
+            elif pk['t'] == 'nack':
+                # the Interest the application itself sends, as large as the case says; the Nack echoes exactly those bytes
+                if pk['big'] == 'name':
+                    import pktcommon as K
+                    _, n = _fit_n(lambda n: K.build_interest(pre + [K.gen_comp(_rb(pk['seed'], n), 8)], can_be_prefix=bool(pk.get('cbp')),
+                                                             nonce=i + 1, lifetime=600000), pk['size'])
+                    nacked[i] = express(i, pre + [bytes(K.gen_comp(_rb(pk['seed'], n), 8))], bool(pk.get('cbp')))
+                else:
+                    # a probe of the same shape tells how many bytes the application's encoder puts around the parameters
+                    probe = express(100 + i, pre[:1] + [b'\x08\x02p' + bytes([48 + i])], bool(pk.get('cbp')), _rb(pk['seed'], 300))
+                    n = max(0, 300 + pk['size'] - len(probe)) if probe else max(0, pk['size'] - 120)
+                    if n >= 65536:
+                        n -= 4                  # the Lengths of the parameters and of the packet take two more bytes each
+                    nacked[i] = express(i, pre, bool(pk.get('cbp')), _rb(pk['seed'], n))
+            else:
+                if fe == 'v2':
+                    def handler(name, app_param, rep, context, i=i):
+                        tok = context.get('pit_token')
+                        invoked.append([i, _dg(enc.Name.to_bytes(name)), None if app_param is None else _dg(app_param),
+                                        None if tok is None else (bytes(tok).hex() or '-')])
+                        if reply is not None:
+                            rep(reply)
+                    app.attach_handler(pre, handler, v2_validator)
+                else:
+                    def handler1(name, param, app_param, i=i):
+                        invoked.append([i, _dg(enc.Name.to_bytes(name)), None if app_param is None else _dg(app_param), None])
+                        if reply is not None:
+                            app.put_raw_packet(reply)
+                    app.set_interest_filter(pre, handler1, v1_validator)
+        loop.settle()
+        rig.take_sent()
+        trace = []
+        for pk in case['pkts']:
+            hs, tail = hs_unjson(pk['hdrs']), hs_unjson(pk.get('tail', []))
+            if pk['t'] == 'nack':
+                p = nacked.get(pk['id'], b'')
+                w = wrap(hs, p, tail)                 # a Nack envelope has no bare counterpart: both runs get it
+            else:
+                p = x_packet(pk)
+                w = wrap(hs, p, tail) if wrapped else p
+            before = dict(outcomes)
+            inv0, err0 = len(invoked), len(loop.errors)
+            exc = None
+            try:
+                rig.feed(w, case.get('head', ()), case.get('mss', 0), bool(case.get('settle')))
+            except Exception as e:                    # noqa
+                exc = c6.cls_name(type(e).__name__)
+            loop.settle()
+            writes = rig.take_sent()
+            if via in ('stream', 'unix') and writes:
+                writes = [b''.join(writes)]           # a stream: what one reply puts on the wire is the concatenation
+            trace.append({'exc': exc, 'bg': [c6.cls_name(x[0]) for x in loop.errors[err0:]],
+                          'done': {str(i): o for i, o in outcomes.items() if i not in before},
+                          'invoked': invoked[inv0:], 'sent': [_sent_obs(x) for x in writes],
+                          'net': len(p), 'wire': len(w), 'alive': bool(rig.face.running)})
+        return trace
+
+
+def run_xport(case):
+    r = {'bare': _xport_run(case, False), 'wrapped': _xport_run(case, True)}
+    if case.get('reply') is not None:
+        r['reply'] = _dg(x_reply(case))
+    return r
+
+
+def oracle_xport(case, impl):
+    fe, via = case['fe'], case['via']
+    how = {'stream': 'a TcpFace (StreamFace.run)', 'unix': 'a UnixFace (StreamFace.run)', 'udp': 'a UdpFace (datagram_received)',
+           'direct': 'face.callback'}[via]
+    for n, (pk, b, w) in enumerate(zip(case['pkts'], impl['bare'], impl['wrapped'])):
+        if pk['t'] != 'nack' and (b['exc'] or b['bg']):
+            return None              # reception failing on the bare packet is C06's finding, not a transparency issue
+        if w['exc'] or w['bg']:
+            return f"{fe} over {how}: receiving envelope {n} ({w['wire']} bytes) failed with {w['exc'] or w['bg'][0]}"
+        if pk['t'] == 'nack':
+            want = {str(pk['id']): ['nack', pk['reason']]}
+            for r in (b, w):
+                if r['net'] == 0:
+                    continue         # the application did not send the Interest (not this property's business)
+                if r['done'] != want:
+                    return (f"{fe} over {how}: Nack envelope {n} of {r['wire']} bytes (reason {pk['reason']}) around the "
+                            f"{r['net']}-byte Interest the application sent completed {r['done']} instead of {want}")
+                if r['invoked'] or r['sent']:
+                    return f'{fe} over {how}: Nack envelope {n} reached a handler or made the application send'
+            continue
+        what = f"{pk['t']} packet {n} of {w['net']} bytes ({w['wire']} with its envelope)"
+        tok = split_token(hs_unjson(pk['hdrs']))[1]
+        want_tok = None if (tok is None or fe == 'v1') else (tok.hex() or '-')
+        if b['done'] != w['done']:
+            return f"{fe} over {how}: {what} completes {b['done']} when bare but {w['done']} when wrapped"
+        if [x[:3] for x in b['invoked']] != [x[:3] for x in w['invoked']]:
+            return f"{fe} over {how}: {what} reaches handlers {[x[0] for x in b['invoked']]} when bare but {[x[0] for x in w['invoked']]} when wrapped"
+        if len(b['sent']) != len(w['sent']):
+            return f'{fe} over {how}: {what} makes the application send differently when wrapped'
+        for x in w['invoked']:
+            if x[3] != want_tok:
+                return f'{fe} over {how}: handler context carries token {x[3]} instead of {want_tok}'
+        for x in b['invoked']:
+            if x[3] is not None:
+                return f'{fe} over {how}: bare Interest reached the handler with a token'
+        if 'reply' in impl and w['invoked']:
+            if len(w['sent']) != len(w['invoked']):
+                return f"{fe} over {how}: {len(w['invoked'])} handler replies to {what} wrote {len(w['sent'])} packets to the face"
+            rd = impl['reply']
+            rv = rd if int(rd.split(':')[0]) > 64 else x_reply(case).hex()
+            for sx in w['sent']:
+                if want_tok is None:
+                    if sx['d'] != rd:
+                        return f'{fe} over {how}: reply to {what} (no PIT token) was not sent bare and unmodified'
+                elif sx['env'] != [[0x62, tok.hex()], [0x50, rv]]:
+                    return (f'{fe} over {how}: reply to {what} does not carry exactly the identical token and the unmodified '
+                            f'reply bytes')
+            for sx in b['sent']:
+                if sx['d'] != rd:
+                    return f'{fe} over {how}: reply to the bare {what} was not sent bare and unmodified'
+    return None
+
+
 def shrink(case):
     k = case['k']
     if k == 'lp':
@@ -652,6 +967,22 @@ def shrink(case):
                 elif e[1] != j:
                     out.append(['r', e[1] - (1 if e[1] > j else 0), e[2]])
             yield {'k': 'replies', 'evs': out}
+    if k == 'xport':
+        for i in range(len(case['pkts'])):
+            if len(case['pkts']) > 1:
+                yield {**case, 'pkts': case['pkts'][:i] + case['pkts'][i + 1:]}
+        for key in ('head', 'mss', 'settle', 'reply'):
+            if case.get(key):
+                yield {a: b for a, b in case.items() if a != key}
+        for i, p in enumerate(case['pkts']):
+            if p.get('tail'):
+                yield {**case, 'pkts': case['pkts'][:i] + [{a: b for a, b in p.items() if a != 'tail'}] + case['pkts'][i + 1:]}
+            for j in range(len(p['hdrs'])):
+                if p['hdrs'][j][0] != 0x320:
+                    yield {**case, 'pkts': case['pkts'][:i] + [{**p, 'hdrs': p['hdrs'][:j] + p['hdrs'][j + 1:]}] + case['pkts'][i + 1:]}
+            if p['big'] != 'body':
+                yield {**case, 'pkts': case['pkts'][:i] + [{**p, 'big': 'body'}] + case['pkts'][i + 1:]}
+        return
     if k == 'recv':
         if case.get('rx'):
             yield {a: b for a, b in case.items() if a != 'rx'}
@@ -858,12 +1189,16 @@ def run_impl(case):
                 return {'obs': 'err ' + c6.cls_name(type(e).__name__)}
     if k == 'replies':
         return run_replies(case)
+    if k == 'xport':
+        return run_xport(case)
     return run_recv(case)
 
 
 # ---------------------------------------------------------------------------------------------- model
 def model_line(case, impl):
     k = case['k']
+    if k == 'xport':
+        return None          # judged by the oracle only (the model has no transports; sizes are covered by the proofs)
     if k == 'lp':
         return 'C10 lp ' + (case['w'] or '-')
     if k == 'nack':
@@ -1051,6 +1386,8 @@ def oracle(case, impl):
                     return (f'reply {n} (to Interest {e[1]}) does not carry exactly its own token and the unmodified reply '
                             f'(token sent: {got})')
         return None
+    if k == 'xport':
+        return oracle_xport(case, impl)
     # recv ------------------------------------------------------------------------------------------
     fe = case['fe']
     pend = impl['pend']
@@ -1120,6 +1457,8 @@ def nontrivial(case, impl):
         return case['spec'] is not None
     if k == 'recv':
         return bool(case['pend'] or case['hand'])
+    if k == 'xport':
+        return any(r['done'] or r['invoked'] for r in impl['bare'])
     return True
 
 
@@ -1141,6 +1480,21 @@ def tags(case, impl):
         t.append('replies:%d' % sum(1 for e in case['evs'] if e[0] == 'r'))
         if any(e[0] == 'i' and e[1] is not None and int(e[2]) & 2 for e in case['evs']):
             t.append('replies:unknown-headers-before-token')
+    elif k == 'xport':
+        for pk, b, w in zip(case['pkts'], impl['bare'], impl['wrapped']):
+            lim = [B for B in XBOUNDS if b['net'] <= B < w['wire']] if pk['t'] != 'nack' else [B for B in XBOUNDS if w['net'] <= B < w['wire']]
+            sz = 'straddles-%d' % lim[0] if lim else ('<1k' if w['net'] < 1024 else '<8800' if w['net'] <= 8800 else '<64k' if w['net'] < 65536 else '>=64k')
+            t.append('xport:%s:%s:%s' % (case['via'], pk['t'], sz))
+            t.append('xport-effect:%s:%s' % (pk['t'], 'yes' if (b['done'] or b['invoked']) else 'none'))
+            if pk['t'] == 'nack' and w['net'] != pk['size']:
+                t.append('xport:nacked-interest-size-off-by:%d' % max(-9, min(9, w['net'] - pk['size'])))
+            if pk['t'] != 'nack' and w['net'] != pk['size']:
+                t.append('xport:size-not-exact')
+            if w['invoked'] and w['sent']:
+                t.append('xport-reply:' + ('in-envelope' if w['invoked'][0][3] else 'bare'))
+        t.append('xport-fe:' + case['fe'])
+        if case.get('head') or case.get('mss'):
+            t.append('xport:stream-segmented')
     elif k == 'recv':
         t.append(case['fe'] + ':pend%d:hand%d' % (len(case['pend']), len(case['hand'])))
         if case.get('rx'):
